@@ -56,7 +56,7 @@ func sanitize(c *Chain) {
 	w := &walker{info: Info{Hazards: map[string]bool{}, Classes: map[string]bool{}}}
 	w.onTmpl = func(t *Tmpl) {
 		for i := range t.Slots {
-			if v := t.Slots[i].A.V; v != nil && v.K == KBytes && (t.Slots[i].Paren || t.NoParen) {
+			if v := t.Slots[i].A.V; v != nil && v.BytesLike() && (t.Slots[i].Paren || t.NoParen) {
 				v.K = KStr
 			}
 		}
@@ -140,7 +140,7 @@ func (g *gen) num() int64 {
 
 func (g *gen) strVal(kinds ...string) Val {
 	if len(kinds) == 0 {
-		kinds = []string{KStr, KStr, KStr, KPStr, KNullStr, KValuer, KPValuer, KBytes}
+		kinds = []string{KStr, KStr, KStr, KPStr, KNullStr, KValuer, KPValuer, KBytes, KHash, KRaw}
 	}
 	return Val{K: kinds[g.pick("strkind", len(kinds))], S: g.str()}
 }
@@ -214,8 +214,8 @@ func (g *gen) slice(class string, allowEmpty, typedOnly bool) Val {
 	var v Val
 	switch class {
 	case "str":
-		v.K = []string{KStrs, KStrs, KAnys, KArr2}[g.pick("sk", 4)]
-		if typedOnly && v.K == KArr2 {
+		v.K = []string{KStrs, KStrs, KAnys, KArr2, KNames}[g.pick("sk", 5)]
+		if typedOnly && !v.EqList() && !g.oddEqList() {
 			v.K = KStrs
 		}
 		if v.K == KArr2 {
@@ -230,14 +230,20 @@ func (g *gen) slice(class string, allowEmpty, typedOnly bool) Val {
 		}
 	case "float":
 		v.K = KF64s
-		if typedOnly {
+		if typedOnly && !g.oddEqList() {
 			v.K = KAnys
 		}
 		for i := 0; i < n; i++ {
 			v.L = append(v.L, g.floatVal())
 		}
 	default:
-		v.K = []string{KInts, KI64s, KAnys}[g.pick("ik", 3)]
+		v.K = []string{KInts, KI64s, KAnys, KIDs, KArr3}[g.pick("ik", 5)]
+		if typedOnly && !v.EqList() && !g.oddEqList() {
+			v.K = KI64s
+		}
+		if v.K == KArr3 {
+			n = 3
+		}
 		for i := 0; i < n; i++ {
 			if v.K == KAnys {
 				v.L = append(v.L, g.scalar("int", 10))
@@ -250,14 +256,26 @@ func (g *gen) slice(class string, allowEmpty, typedOnly bool) Val {
 		// typed slices hold plain elements
 		for i := range v.L {
 			switch v.K {
-			case KStrs, KArr2:
+			case KStrs, KArr2, KNames:
 				v.L[i].K = KStr
-			case KInts, KI64s:
+			case KInts, KI64s, KIDs, KArr3:
 				v.L[i].K = KInt
 			}
 		}
 	}
 	return v
+}
+
+// oddEqList: let a slice/array type that clause.Eq/Neq do not know by name reach
+// an equality builder. It is rendered "col = (?,?)" — one placeholder per
+// element, which is what this property is about, but a row value SQLite
+// rejects: only for the dry dialects.
+func (g *gen) oddEqList() bool {
+	if g.cfg.Exec || !g.pct("oddeqlist", 30) {
+		return false
+	}
+	g.noExec = true
+	return true
 }
 
 func pv(v Val) *Val { return &v }
@@ -277,7 +295,7 @@ func init() {
 
 func classOf(kind string) string {
 	switch kind {
-	case "str", "pstr", "nullstr", "bytes":
+	case "str", "pstr", "nullstr", "bytes", "raw", "hash":
 		return "str"
 	case "int", "uint":
 		return "int"
@@ -584,8 +602,8 @@ func (g *gen) eqValue(class string, sc scope, allowBytes bool) Arg {
 	switch g.weighted("eqval", 58, 10, 18, 8, 6) {
 	case 0:
 		v := g.scalar(class, 0)
-		if !allowBytes && v.K == KBytes {
-			v.K = KStr
+		if !allowBytes && v.BytesLike() {
+			v.K = KStr // a map condition turns any byte slice into an IN list of its bytes (DESIGN C01 D)
 		}
 		return Arg{V: &v}
 	case 1:
@@ -694,6 +712,10 @@ func (g *gen) fieldVal(kind string) *Val {
 		return &Val{K: KNullStr, S: g.str()}
 	case "bytes":
 		return &Val{K: KBytes, S: g.str()}
+	case "raw":
+		return &Val{K: KRaw, S: g.str()}
+	case "hash":
+		return &Val{K: KHash, S: g.str()}
 	case "int":
 		return &Val{K: KI64, I: g.num()}
 	case "uint":
@@ -778,7 +800,7 @@ func (g *gen) unit(sc scope, where string) Unit {
 		case 1:
 			return Unit{Form: "pk", PK: &Val{K: KStr, S: strconv.FormatInt(g.num(), 10)}}
 		case 2:
-			v := g.slice("int", false, true)
+			v := g.slice("int", false, false)
 			if v.K == KAnys {
 				v.K = KI64s
 				for i := range v.L {
@@ -918,7 +940,9 @@ func (g *gen) query() *Chain {
 		c.SelCols = []string{gcol, "COUNT(*) AS n"}
 		if g.pct("having", 75) {
 			var u Unit
-			switch g.pick("havingform", 3) {
+			switch g.pick("havingform", 4) {
+			case 3:
+				u = Unit{Form: "colval", Keys: []string{gcol}, Vals: []Arg{g.eqValue("int", sc, true)}}
 			case 0:
 				u = Unit{Form: "tmpl", T: &Tmpl{SQL: "COUNT(*) > ? OR " + gcol + " IN (?)", Slots: []Slot{{A: Arg{V: pv(g.intVal())}}, {A: Arg{V: pv(g.slice("int", true, false))}, Paren: true}}}}
 			case 1:
